@@ -19,6 +19,15 @@ type scen struct {
 	k      [3]*core.VKey // Quai-ledger keys in zone 0-0 (k[0], k[1] funded)
 	q      [3]*core.VKey // Qi-ledger keys in zone 0-0 (q[0] is the miner's Qi coinbase)
 	blocks []*types.WorkObject
+	// extra: transactions the next block gets from a FOREIGN miner (core.VBuildOpts.ExtraTxs); set by
+	// block-content operations, consumed by opts()
+	extra []*types.Transaction
+}
+
+// opts hands the pending foreign transactions to the next build.
+func (s *scen) opts(o core.VBuildOpts) core.VBuildOpts {
+	o.ExtraTxs, s.extra = s.extra, nil
+	return o
 }
 
 var (
